@@ -183,11 +183,11 @@ def body_limited(I, X, N=6, kinds=("readinto", "read"), has_readinto=True):
 KINDS = ["readinto", "read", "readall", "exhaust"]
 
 
-def body_input_stream(I, X, cl_kind="text"):
+def body_input_stream(I, X, cl_kind="text", via="function"):
     """wsgi.get_input_stream decision table (shared with C10)"""
     from harness.c10 import body_input_stream as b
 
-    return b(I, X, cl_kind)
+    return b(I, X, cl_kind, via)
 
 
 def obligations(tier, seed):
@@ -209,4 +209,6 @@ def obligations(tier, seed):
     for k in ("text", "absent"):
         out.append({"name": f"input_stream[{k}]", "body": "body_input_stream", "params": {"cl_kind": k},
                     "opts": {"budget_s": 900, "ctx": {"max_cp": 0x7FF}}, "witness": k == "text"})
+        out.append({"name": f"input_stream[{k},via=Request.stream]", "body": "body_input_stream", "params": {"cl_kind": k, "via": "request"},
+                    "opts": {"budget_s": 900, "ctx": {"max_cp": 0x7FF}, "stubs_from": "harness.c07"}})
     return out
